@@ -27,7 +27,7 @@ REQUIRED = {t: {"with_zero_degree": 30, "with_repeated_pair": 30, "with_self_loo
 
 
 def gen_cases(tier, seed):
-    n = 500 if tier == "quick" else 10000
+    n = 500 if tier == "quick" else 60000
     return [{"seed": seed * 100183 + i, "nmax": 200 if i % 8 == 0 else 40} for i in range(n)]
 
 
